@@ -1020,10 +1020,8 @@ def init (d : Bytes) (handle : Nat) : P Unit := do
   let _ ← pushPkgEnd d d.size
   pure ()
 
-/-- `ParseAML(tableHandle, tableName, header)`; `d` is the whole table (`header.Length` bytes);
-`true` = nil error, `false` = `errParsingAML` -/
-def parseAML (d : Bytes) (fuel : Nat) (handle : Nat) : P Bool := do
-  init d handle
+/-- `ParseAML` after `p.init(…)` -/
+def parseAMLBody (d : Bytes) (fuel : Nat) : P Bool := do
   scopeEnter 0
   if (← parseObjectList d fuel fuel) = .failed then pure false
   else if (← connectNamedObjArgs d fuel 0) ≠ .ok then pure false
@@ -1034,6 +1032,12 @@ def parseAML (d : Bytes) (fuel : Nat) (handle : Nat) : P Bool := do
     else if (← resolveMethodCalls d fuel 0) ≠ .ok then pure false
     else if (← connectNonNamedObjArgs fuel 0) ≠ .ok then pure false
     else pure true
+
+/-- `ParseAML(tableHandle, tableName, header)`; `d` is the whole table (`header.Length` bytes);
+`true` = nil error, `false` = `errParsingAML` -/
+def parseAML (d : Bytes) (fuel : Nat) (handle : Nat) : P Bool := do
+  init d handle
+  parseAMLBody d fuel
 
 /-- the fuel the replay driver and the theorems use: linear in table length + objects present -/
 def fuelFor (d : Bytes) (t : ObjectTree) : Nat := 8 * (d.size + t.pool.size) + 64
